@@ -155,7 +155,13 @@ def build_fd(ov, tag):
     ns = {}
     exec(src, ns)
     fn = ns['ov_%s' % tag]
-    for p in ov['params']:
+    plist = ov['params']
+    if ov.get('decl_order'):
+        # the order in which the parameter decorators are applied decides the
+        # order of the definition's parameter table
+        plist = [ov['params'][i] for i in ov['decl_order']
+                 if i < len(ov['params'])]
+    for p in plist:
         fn = specs.parameter(p[0], type_from_spec(p[1]))(fn)
     if ov.get('varargs'):
         fn = specs.parameter('rest', type_from_spec(ov['varargs']))(fn)
@@ -238,7 +244,12 @@ def gen_family(rng):
             if j == np_i - 1 and rng.random() < 0.15 and ts[0] in ('int', 'pyint', 'num', 'obj'):
                 default = 7
             params.append(['p%d' % j, ts, default])
+        order = list(range(np_i))
+        if np_i >= 2 and rng.random() < 0.5:
+            rng.shuffle(order)
         family.append({
+            'decl_order': order,
+            'exclusive': rng.random() < 0.08,
             'params': params,
             'varargs': rng.choice(TYPE_POOL) if rng.random() < 0.1 else None,
             'kind': kind if rng.random() < 0.9 else rng.choice(
@@ -275,8 +286,8 @@ def gen_calls(rng, family, nparams):
             args = [rng.choice(VALUE_POOL) for _ in range(n)]
         nkw = 0
         r = rng.random()
-        if r < 0.25 and n > 0:
-            nkw = rng.randrange(1, n + 1)
+        if r < 0.3 and n > 0:
+            nkw = rng.randrange(1, n + 1) if rng.random() < 0.5 else n
         calls.append({'args': args, 'nkw': nkw,
                       'via': rng.choice(['python', 'python', 'expr']),
                       'method': rng.random() < 0.3})
@@ -328,7 +339,8 @@ def make_contexts(family, fds, reg_order, structure):
     top = layers[0]
     if structure == 'plain':
         for i in reg_order:
-            layers[family[i]['layer']].register_function(fds[i])
+            layers[family[i]['layer']].register_function(
+                fds[i], exclusive=bool(family[i].get('exclusive')))
         return top
     if structure == 'multi':
         # layer 0 is a MultiContext of two siblings holding complementary
@@ -339,14 +351,17 @@ def make_contexts(family, fds, reg_order, structure):
         flip = 0
         for i in reg_order:
             if family[i]['layer'] == 0:
-                (m1 if flip % 2 == 0 else m2).register_function(fds[i])
+                (m1 if flip % 2 == 0 else m2).register_function(
+                    fds[i], exclusive=bool(family[i].get('exclusive')))
                 flip += 1
             else:
-                layers[family[i]['layer']].register_function(fds[i])
+                layers[family[i]['layer']].register_function(
+                    fds[i], exclusive=bool(family[i].get('exclusive')))
         return contexts.MultiContext([m1, m2])
     if structure == 'linked':
         for i in reg_order:
-            layers[family[i]['layer']].register_function(fds[i])
+            layers[family[i]['layer']].register_function(
+                fds[i], exclusive=bool(family[i].get('exclusive')))
         # a linked context proxying `top` (and its chain) with the std
         # library as own parent
         return contexts.LinkedContext(base_context(), top)
@@ -740,7 +755,8 @@ def shrink_candidates(case):
         yield mk(hash_trials=0)
     for i, ov in enumerate(fam):
         for fld, val in (('varargs', None), ('no_kwargs', False),
-                         ('layer', 0), ('kind', 'function')):
+                         ('layer', 0), ('kind', 'function'),
+                         ('exclusive', False), ('decl_order', None)):
             if ov.get(fld) != val:
                 nov = dict(ov)
                 nov[fld] = val
